@@ -46,7 +46,9 @@ var want = map[string]string{
 }
 
 type tr struct {
-	out   strings.Builder
+	structParams map[ssa.Value]*types.Struct // struct-valued parameters
+	structCopies map[ssa.Value]ssa.Value     // local copy (Alloc) ↦ the struct parameter stored into it
+	out          strings.Builder
 	fail  string
 	elems map[ssa.Value][]string // array allocs: element expressions
 	ptrs  map[ssa.Value]string   // IndexAddr results: element expression
@@ -230,10 +232,29 @@ func (t *tr) instr(ins ssa.Instruction, ind string) {
 	case *ssa.Alloc:
 		if arr, ok := x.Type().(*types.Pointer).Elem().Underlying().(*types.Array); ok && !x.Heap {
 			t.elems[x] = make([]string, arr.Len())
+		} else if _, ok := x.Type().(*types.Pointer).Elem().Underlying().(*types.Struct); ok && !x.Heap {
+			// a local copy of a struct parameter: accepted when the only store into it is that parameter
+			n := 0
+			for _, ref := range *x.Referrers() {
+				if st, ok := ref.(*ssa.Store); ok && st.Addr == x {
+					if _, isParam := t.structParams[st.Val]; !isParam {
+						t.fail = "struct local written from something other than a parameter"
+						return
+					}
+					t.structCopies[x] = st.Val
+					n++
+				}
+			}
+			if n != 1 {
+				t.fail = "struct local without a single initialising store"
+			}
 		} else {
 			t.fail = "alloc " + x.Type().String()
 		}
 	case *ssa.Store:
+		if _, ok := t.structCopies[x.Addr]; ok {
+			return
+		}
 		if _, ok := t.elems[x.Addr]; ok {
 			if p, ok := x.Val.(*ssa.Parameter); ok {
 				for i := range t.elems[x.Addr] {
@@ -271,8 +292,26 @@ func (t *tr) instr(ins ssa.Instruction, ind string) {
 		}
 		fmt.Fprintf(&t.out, "%slet %s := %s %s\n", ind, x.Name(), n, strings.Join(args, " "))
 	case *ssa.FieldAddr:
+		if p, ok := t.structCopies[x.X]; ok {
+			for _, r2 := range *x.Referrers() {
+				if u, ok := r2.(*ssa.UnOp); !ok || u.Op != token.MUL {
+					if _, dbg := r2.(*ssa.DebugRef); !dbg {
+						t.fail = "field of a struct copy is written or escapes"
+						return
+					}
+				}
+			}
+			t.ptrs[x] = fmt.Sprintf("%s_%s", p.Name(), t.structParams[p].Field(x.Field).Name())
+			return
+		}
 		if _, ok := t.ptrs[x]; !ok {
 			t.fail = "field address of something other than a read-only struct pointer parameter"
+		}
+	case *ssa.Field:
+		if st, ok := t.structParams[x.X]; ok {
+			fmt.Fprintf(&t.out, "%slet %s := %s_%s\n", ind, x.Name(), x.X.Name(), st.Field(x.Field).Name())
+		} else {
+			t.fail = "field of something other than a struct parameter"
 		}
 	case *ssa.DebugRef:
 	default:
@@ -336,7 +375,7 @@ func translate(fn *ssa.Function, name string) (string, string) {
 	if hasLoop(fn) {
 		return "", "function has a loop"
 	}
-	t := &tr{elems: map[ssa.Value][]string{}, ptrs: map[ssa.Value]string{}}
+	t := &tr{elems: map[ssa.Value][]string{}, ptrs: map[ssa.Value]string{}, structParams: map[ssa.Value]*types.Struct{}, structCopies: map[ssa.Value]ssa.Value{}}
 	var ps []string
 	for _, p := range fn.Params {
 		if arr, ok := p.Type().Underlying().(*types.Array); ok {
@@ -380,6 +419,18 @@ func translate(fn *ssa.Function, name string) (string, string) {
 				}
 				continue
 			}
+		}
+		// a struct of scalars passed BY VALUE: one parameter per field (read through ssa.Field, or through a local copy)
+		if st, ok := p.Type().Underlying().(*types.Struct); ok {
+			for i := 0; i < st.NumFields(); i++ {
+				ft, ok := leanType(st.Field(i).Type())
+				if !ok {
+					return "", "param field type " + st.Field(i).Type().String()
+				}
+				ps = append(ps, fmt.Sprintf("(%s_%s : %s)", p.Name(), st.Field(i).Name(), ft))
+			}
+			t.structParams[p] = st
+			continue
 		}
 		lt, ok := leanType(p.Type())
 		if !ok {
